@@ -193,7 +193,7 @@ def _string_roots(fn):
         elif isinstance(n, ast.Call) and isinstance(n.func, ast.Name) and n.func.id == "format" and len(n.args) == 2:
             cand = n
         elif isinstance(n, ast.Name) and isinstance(n.ctx, ast.Load):
-            cand = n if getattr(n, "_c13_modconst", False) else None
+            cand = n if getattr(n, "_c13_modconst", False) and not isinstance(parent(n), ast.arguments) else None
         if cand is None:
             continue
         top = cand
@@ -795,7 +795,13 @@ def r2_nonempty_vector(ctx):
     fn = ctx.src.func(WRITER, "vecwrite")
     E = engine(ctx, WRITER, "vecwrite")
     why = []
-    asg = [e for e in E.events("assign") if e.d["name"] == "length"]
+    # the row count: the value handed to _vecwrite after the format string (third argument), whatever the local is called
+    cname = None
+    for e in E.events(("call", "enter")):
+        callee = (e.d["name"] or "").split(".")[-1] if e.kind == "call" else e.d["func"]
+        if callee == "_vecwrite" and len(e.d["args"]) >= 3 and isinstance(e.d["args"][2], tuple) and e.d["args"][2][:1] == ("sym",):
+            cname = e.d["args"][2][1].split("@")[0]
+    asg = [e for e in E.events("assign") if e.d["name"] == cname]
     init = [e for e in asg if not e.loops]
     ups = [e for e in asg if e.loops]
     if not (init and all(e.d["value"] == Lin(c=1) for e in init)):
@@ -914,7 +920,80 @@ def _columns(v):
             return list(v[2][0][1])
     if isinstance(v, tuple) and v and v[0] == "elem" and v[1] == ("sym", "np.c_") and isinstance(v[2], tuple) and v[2][:1] == ("tuple",):
         return list(v[2][1])
+    if isinstance(v, tuple) and v[:2] == ("op", ".reshape") and len(v[2]) in (2, 3):
+        shape = v[2][1:] if len(v[2]) == 3 else (v[2][1][1] if isinstance(v[2][1], tuple) and v[2][1][:1] == ("tuple",) else ())
+        ns = _norm_slice(v[2][0])
+        if len(shape) == 2 and shape[1] == Lin(c=2) and ns is not None and ns[3] == Lin(c=1):
+            # consecutive pairs: column 0 is every second element from the first one on, column 1 from the next one on
+            base, lo, end, _ = ns
+            hi = ("k", None) if end == Lin() else (end if end.is_const() else end + lin(("len", M.origin(base))))
+            return [("slice", base, lo, hi, Lin(c=2)), ("slice", base, lo + 1, hi, Lin(c=2))]
     return None
+
+
+def _shape2(v):
+    """(leading block, rows, columns, kinds of the blocks appended on the right) of a 2-D array built by horizontal stacking / padding"""
+    if isinstance(v, tuple) and v[:1] == ("op",):
+        name, args = v[1], v[2]
+        kws = dict(v[3]) if len(v) > 3 else {}
+        blocks = None
+        if name in ("np.hstack", "np.column_stack") and len(args) == 1 and isinstance(args[0], tuple) and args[0][:1] == ("tuple",):
+            blocks = list(args[0][1])
+        elif name == "np.concatenate" and args and isinstance(args[0], tuple) and args[0][:1] == ("tuple",) \
+                and (kws.get("axis") == Lin(c=1) or (len(args) > 1 and args[1] == Lin(c=1))):
+            blocks = list(args[0][1])
+        elif name == "np.append" and len(args) >= 2 and (kws.get("axis") == Lin(c=1) or (len(args) > 2 and args[2] == Lin(c=1))):
+            blocks = [args[0], args[1]]
+        elif name == "np.pad" and len(args) >= 2 and isinstance(args[1], tuple) and args[1][:1] == ("tuple",) and len(args[1][1]) == 2 \
+                and (kws.get("mode") in (None, S((("lit", "constant"),)))) and kws.get("constant_values") in (None, Lin()) and len(args) == 2:
+            (r0, c0) = args[1][1]
+            if r0 == ("tuple", (Lin(), Lin())) and isinstance(c0, tuple) and c0[:1] == ("tuple",) and len(c0[1]) == 2 and c0[1][0] == Lin():
+                inner = _shape2(args[0])
+                if inner is None:
+                    return None
+                return inner[0], inner[1], inner[2] + lin(c0[1][1]), inner[3] + ["zeros"]
+            return None
+        if blocks is not None and blocks:
+            first = _shape2(blocks[0])
+            if first is None:
+                return None
+            lead, nrows, ncols, pads = first
+            for b_ in blocks[1:]:
+                if isinstance(b_, tuple) and b_[:1] == ("op",) and b_[1] in ("np.zeros", "np.ones", "np.empty", "np.full") and b_[2] \
+                        and isinstance(b_[2][0], tuple) and b_[2][0][:1] == ("tuple",) and len(b_[2][0][1]) == 2:
+                    r, c = b_[2][0][1]
+                    if lin(r) != nrows:
+                        return None
+                    kind = "zeros" if b_[1] == "np.zeros" or (b_[1] == "np.full" and len(b_[2]) > 1 and b_[2][1] in (Lin(), ("k", 0.0))) else b_[1]
+                    ncols = ncols + lin(c)
+                    pads = pads + [kind]
+                else:
+                    return None
+            return lead, nrows, ncols, pads
+        if name in ("np.hstack", "np.column_stack", "np.concatenate", "np.append", "np.pad", "np.vstack", "np.stack"):
+            return None
+    if isinstance(v, (Lin, S)):
+        return None
+    return v, lin(("len", M.origin(v))), lin(("dim", M.origin(v), 1)), []
+
+
+def _norm_slice(sl):
+    """(base, first, end relative to the length (0 = to the end, -1 = all but the last), step) of a 1-D slice with constant bounds"""
+    if not (isinstance(sl, tuple) and sl[:1] == ("slice",)):
+        return None
+    base, lo, hi, step = sl[1], sl[2], sl[3], sl[4]
+    n = lin(("len", M.origin(base)))
+    if hi == ("k", None):
+        end = Lin()
+    elif isinstance(hi, Lin) and hi.is_const() and hi.c < 0:
+        end = hi
+    elif isinstance(hi, Lin):
+        end = hi - n
+    else:
+        return None
+    if not (isinstance(lo, Lin) and isinstance(step, Lin)):
+        return None
+    return base, lo, end, step
 
 
 def _transpose_form(v):
@@ -946,13 +1025,16 @@ def r3_reader_strides(ctx):
         if cols is None or len(cols) != 2 or not all(isinstance(c, tuple) and c[:1] == ("slice",) for c in cols):
             v.unknown(show(e.d["value"]))
             continue
-        a, b = cols
-        good = a[1] == b[1] and a[2] == Lin(c=8) and b[2] == Lin(c=9) and a[3] == Lin(c=-1) == b[3] and a[4] == Lin(c=2) == b[4]
+        na, nb = _norm_slice(cols[0]), _norm_slice(cols[1])
+        if na is None or nb is None:
+            v.unknown([show(c) for c in cols])
+            continue
+        good = na[0] == nb[0] and na[1] == Lin(c=8) and nb[1] == Lin(c=9) and na[2] == Lin(c=-1) == nb[2] and na[3] == Lin(c=2) == nb[3]
         if not good:
-            v.bad([show(c) for c in cols])
+            (v.bad if all(x.is_const() for x in na[1:] + nb[1:]) else v.unknown)([show(c) for c in cols])
             continue
         # the vector sliced is the card of the table the result is stored under
-        src = a[1]
+        src = na[0]
         if not (isinstance(src, tuple) and src[:1] == ("elem",) and src[2] == e.d["index"]):
             v.unknown({"sliced": show(src), "stored under": show(e.d["index"])})
     v.report(ctx, "rdtabled1: abscissae are fields 8,10,... and ordinates fields 9,11,... up to (not including) the final ENDT field", fn)
@@ -999,40 +1081,36 @@ def r3_reader_strides(ctx):
         v_ = e.d["value"]
         if v_ == ("k", None):
             continue
-        if isinstance(v_, tuple) and v_[:1] == ("op",) and v_[1] in ("np.hstack", "np.concatenate", "np.column_stack") and isinstance(v_[2][0], tuple) \
-                and v_[2][0][:1] == ("tuple",) and len(v_[2][0][1]) == 2:
-            base, pad = v_[2][0][1]
-            nc = lin(("dim", M.origin(base), 1))
-            if not (isinstance(pad, tuple) and pad[:2] == ("op", "np.zeros") and isinstance(pad[2][0], tuple) and pad[2][0][:1] == ("tuple",) and len(pad[2][0][1]) == 2):
-                g.unknown(show(v_))
-                continue
-            if v_[1] == "np.concatenate" and not (len(v_) > 3 and dict(v_[3]).get("axis") == Lin(c=1)):
-                g.unknown(show(v_))
-                continue
-            r, c = pad[2][0][1]
-            if lin(r) != lin(("len", M.origin(base))):
-                g.unknown({"rows of the padding": show(r)})
-                continue
-            tot = nc + lin(c)
-            if tot != Lin(c=8):
-                (g.bad if tot.is_const() or not M.free_symbols(tot - nc) else g.unknown)({"columns after padding": show(tot)})
-                continue
-            lo, hi = M.bounds(nc, e.facts)
-            if not (hi is not None and hi <= 7):
-                g.unknown({"padding is applied when the card has": f"{lo}..{hi} columns"})
-                continue
-            padded += 1
-        else:
+        g.at(e.node)
+        shape = _shape2(v_)
+        if shape is None:
+            g.unknown(show(v_))
+            continue
+        first, nrows, ncols, pads = shape
+        if not pads:
             # returned unchanged: only when it already has at least 8 columns
-            nc = lin(("dim", M.origin(v_), 1))
-            lo, hi = M.bounds(nc, e.facts)
+            lo, hi = M.bounds(ncols, e.facts)
             if not (lo is not None and lo >= 8):
-                vals, _ = M.possible_values(("dim", M.origin(v_), 1), e.facts, extra=(8,), lo=0)
+                at = the_atom(ncols)
+                vals, _ = M.possible_values(at, e.facts, extra=(8,), lo=0) if at is not None else (set(), None)
                 short = sorted(x for x in vals if x < 8)
-                if short and any(M.mentions(t, ("dim", M.origin(v_), 1)) for t, _ in e.facts):
+                if short and at is not None and any(M.mentions(t, at) for t, _ in e.facts):
                     g.bad({"returned without padding": show(v_), "possible number of columns": short[:4]})
                 else:
                     g.unknown({"returned without padding": show(v_), "columns proved": [str(lo), str(hi)]})
+            continue
+        if any(p_ != "zeros" for p_ in pads):
+            g.unknown({"padding": pads})
+            continue
+        if ncols != Lin(c=8):
+            (g.bad if ncols.is_const() else g.unknown)({"columns after padding": show(ncols)})
+            continue
+        nc = lin(("dim", M.origin(first), 1))
+        lo, hi = M.bounds(nc, e.facts)
+        if not (hi is not None and hi <= 7):
+            g.unknown({"padding is applied when the card has": f"{lo}..{hi} columns"})
+            continue
+        padded += 1
     if g.v is True and padded < 1:
         g.unknown("no padded return value")
     g.report(ctx, "rdgrids pads short GRID cards to 8 columns", fn)
@@ -1071,8 +1149,15 @@ def _dmig(ctx):
         if not any(swapped(e, p_) for e in mir):
             v.unknown({"entry without a mirror store": show(p_.d["index"])}, p_.node)
     v.report(ctx, "rddmig: a form-6 entry (i, j) is mirrored to (j, i) unchanged (plain symmetry)", rd)
+    # the locals that hold the matrix form (6 and at least one of 1, 2, 9) and the matrix type (1..4), whatever they are called
+    consts = {}
+    for e in E.events("assign"):
+        if M.is_int_const(e.d["value"]) and e.d["name"]:
+            consts.setdefault(e.d["name"], set()).add(M.ival(e.d["value"]))
+    fname = next((nm for nm, cs in sorted(consts.items()) if 6 in cs and cs & {1, 2, 9} and cs <= {1, 2, 6, 8, 9}), None)
+    tname = next((nm for nm, cs in sorted(consts.items()) if cs == {1, 2, 3, 4} and nm != fname), None)
     # writer: form 6 only under a test that the matrix equals its plain transpose
-    asg = [e for e in E.events("assign") if e.d["name"] == "form" and e.d["value"] == Lin(c=6)]
+    asg = [e for e in E.events("assign") if e.d["name"] == fname and e.d["value"] == Lin(c=6)]
     inst = ("wtdmig: a matrix is written as form 6 (half storage) only if it equals its plain transpose - the reader mirrors "
             "without conjugation")
     if not asg:
@@ -1103,7 +1188,7 @@ def _dmig(ctx):
         col = outer[0].d["target"] if outer else None
         it = e.d["iter"]
         formv = None
-        for a_ in reversed([x for x in E.events("assign") if x.d["name"] == "form" and x.seq < e.seq and set(x.facts) <= set(e.facts)]):
+        for a_ in reversed([x for x in E.events("assign") if x.d["name"] == fname and x.seq < e.seq and set(x.facts) <= set(e.facts)]):
             formv = a_.d["value"]
             break
         if not M.is_int_const(formv) or not outer or not (isinstance(outer[0].d["iter"], tuple) and outer[0].d["iter"][:1] == ("range",)):
@@ -1133,14 +1218,15 @@ def _dmig(ctx):
     for e in terms:
         v.at(e.node)
         mt = None
-        for a_ in reversed([x for x in E.events("assign") if x.d["name"] == "mtype" and x.seq < e.seq and set(x.facts) <= set(e.facts)]):
+        for a_ in reversed([x for x in E.events("assign") if x.d["name"] == tname and x.seq < e.seq and set(x.facts) <= set(e.facts)]):
             mt = a_.d["value"]
             break
         if not M.is_int_const(mt):
             v.unknown(f"matrix type {show(mt)}")
             continue
         k = M.ival(mt)
-        vals = [x for x in e.d["args"][0].p if x[0] == "fv" and not isinstance(x[2], Lin) and _has_float(x[2])]
+        vals = [(x[0], None, x[1]) if x[0] == "str" else x for x in e.d["args"][0].p
+                if (x[0] == "fv" and not isinstance(x[2], Lin) and _has_float(x[2])) or (x[0] == "str" and _has_float(x[1]))]
         inline_specs = []
         _float_specs(S(tuple(x for x in e.d["args"][0].p if x[0] == "fv" and isinstance(M.parse_spec(x[1] or ""), M.Spec)
                              and M.parse_spec(x[1] or "").type in ("e", "E", "f", "F", "g", "G"))), inline_specs, None)
